@@ -99,10 +99,12 @@ Fixpoint simple_mutation (changes : list (ref * newnode)) (s : state) : res stat
 (* ------------------------------------------------------------------ single_drop_mutation *)
 Inductive advice := AForbidden | ANodeOnly | ARewire | AWithChildren | AWithParents.
 
+(* for child in nodes_to_delete: if len(graph.nodes) > 1: graph.delete_node(child, reconnect=all) *)
 Fixpoint delete_all (l : list ref) (s : state) : res state :=
   match l with
   | [] => Ok s
-  | c :: t => bind (delete_node (fst s) (snd s) c RAll) (delete_all t)
+  | c :: t => if 1 <? length (snd s) then bind (delete_node (fst s) (snd s) c RAll) (delete_all t)
+              else delete_all t s
   end.
 
 (* v = choice(graph.nodes); extra = the members picked by the `data_source` text filter of the
